@@ -72,7 +72,7 @@ func (a *Actions) Ref() string {
 type Note struct {
 	XMLName xml.Name `xml:"note"`
 
-	Text string `xml:",cdata"`
+	Text string `xml:",chardata"`
 	Type string `xml:"type,attr,omitempty"`
 }
 
